@@ -120,6 +120,53 @@ def check_moved(v1, v2, how):
     return out
 
 
+ID_HOWS = ("same_id", "deepcopy", "copy", "from_dict", "counter_reset", "distinct_ids")
+
+
+def check_ids(a, b, how):
+    """Equality is about coordinates, whatever the two objects' ids are (copies keep the id of their original, loaded
+    individuals carry stored ids, the id counter can restart)."""
+    import copy
+    from artap.individual import Individual
+    out = []
+    ia = I(a)
+    if how == "same_id":
+        ib = I(b)
+        ib.id = ia.id
+    elif how == "deepcopy":
+        ib = copy.deepcopy(ia)
+        ib.vector = list(b)
+    elif how == "copy":
+        ib = copy.copy(ia)
+        ib.vector = list(b)
+    elif how == "from_dict":
+        d = I(b).to_dict()
+        d["id"] = ia.id
+        ib = Individual.from_dict(d)
+    elif how == "counter_reset":
+        Individual.counter = ia.id
+        ib = I(b)
+    else:
+        ib = I(b)
+    exp = ref_eq(a, b)
+    same = "equal-ids" if ia.id == ib.id else "different-ids"
+    for x, y, tag in ((ia, ib, "ab"), (ib, ia, "ba")):
+        try:
+            got = bool(x == y)
+        except Exception as e:
+            out.append(("C20:ids:exception", "%r == %r (%s via %s) raised %r" % (a, b, same, how, e)))
+            continue
+        if got != exp:
+            out.append(("C20:ids:eq:expected=%s:%s" % (exp, same), "Individual(%r) == Individual(%r) is %r with %s (%s)" % (a, b, got, same, how)))
+    if list(a) == list(b) and hash(ia) != hash(ib):
+        out.append(("C20:ids:hash:%s" % same, "identical vectors %r hash differently with %s (%s)" % (a, same, how)))
+    if (ib in [ia]) != exp:
+        out.append(("C20:ids:in:expected=%s:%s" % (exp, same), "Individual(%r) in [Individual(%r)] is %r with %s (%s)" % (b, a, ib in [ia], same, how)))
+    if len({ia, ib}) != (1 if list(a) == list(b) else 2) and (list(a) == list(b) or not exp):
+        out.append(("C20:ids:set:%s" % same, "set of %r and %r has %d members with %s (%s)" % (a, b, len({ia, ib}), same, how)))
+    return out
+
+
 class ScriptExhausted(Exception):
     pass
 
@@ -225,6 +272,18 @@ def _shard(shard, col: Collector):
             if not (x == y) or hash(x) != hash(y):
                 col.violation("C20:types:negative-zero", "types", "%r and %r: equal %r, hashes equal %r" % (a, b, x == y, hash(x) == hash(y)), {"base": a, "ta": "float", "tb": "float"})
         col.sample({"kind": "one point in different numeric types", "point": [1, -2], "types": list(conv)}, 1)
+    elif kind == "ids":
+        allv = list(itertools.product(LAT, repeat=2)) + [(v,) for v in LAT] + [(1.0, 0.0, -1.0), (1.0, 0.0, -2.0), (1.0 + 5e-11, 0.0, -1.0)]
+        for a in allv:
+            for b in allv:
+                if len(a) != len(b):
+                    continue
+                for how in ID_HOWS:
+                    col.case()
+                    col.nontrivial(("ids", a, b, how))
+                    for key, msg in check_ids(a, b, how):
+                        col.violation(key, "ids", msg, {"a": a, "b": b, "how": how})
+        col.sample({"kind": "equal ids, different points", "a": [1.0, 0.0], "b": [1.0, -1.0], "how": "deepcopy"}, 1)
     elif kind == "moved":
         allv = list(itertools.product(LAT, repeat=2)) + [(v,) for v in LAT]
         for v1 in allv:
@@ -291,6 +350,8 @@ def replay(sub, case):
         conv = {"int": int, "float": float, "np.float64": np.float64, "np.int64": np.int64, "np.float32": np.float32}
         a, b = I([conv[case["ta"]](v) for v in case["base"]]), I([conv[case["tb"]](v) for v in case["base"]])
         return [] if (a == b and hash(a) == hash(b)) else [("C20:types", "point %r as %s / %s" % (case["base"], case["ta"], case["tb"]))]
+    if sub == "ids":
+        return check_ids(t(case["a"]), t(case["b"]), case["how"])
     if sub == "moved":
         return check_moved(t(case["v1"]), t(case["v2"]), case["how"])
     if sub == "gen":
@@ -303,7 +364,7 @@ def run(tier, seed):
     for n in (1, 2, 3, 4):
         for first in LAT:
             shards.append(("eq", n, first))
-    shards += [("cont", 1), ("cont", 2), ("big",), ("moved",), ("types",)]
+    shards += [("cont", 1), ("cont", 2), ("big",), ("moved",), ("types",), ("ids",)]
     lat2 = LAT2
     firsts = [(a, b) for a in lat2 for b in lat2]
     for npop in (2, 3, 4):
